@@ -71,10 +71,13 @@ class SymNP(types.ModuleType):
 SYMNP = SymNP()
 
 
-def make_stub(name, contract, log):
+def make_stub(name, contract, log, pysig=None):
     def stub(*args, **kwargs):
         if kwargs:
-            raise Unsupported(f"keyword call of generic function {name}")
+            if pysig is None:
+                raise Unsupported(f"keyword call of generic function {name}")
+            ba = pysig.bind(*args, **kwargs)
+            args = tuple(ba.arguments.values())
         for label, fm in contract.requires(*args):
             ok = CTX.require(fm if not isinstance(fm, bool) else z3.BoolVal(fm), f"callee-pre {name}: {label}")
         log.append(name)
@@ -119,7 +122,12 @@ def installed(contracts, keep_real=()):
         if nm in KEEP_REAL or nm in keep_real:
             continue
         if nm in contracts:
-            stubs[nm] = make_stub(nm, contracts[nm], log)
+            try:
+                import inspect as _inspect
+                pysig = _inspect.signature(fns[nm]._f)
+            except (TypeError, ValueError):
+                pysig = None
+            stubs[nm] = make_stub(nm, contracts[nm], log, pysig)
         else:
             def missing(*a, _nm=nm, **k):
                 raise Unsupported(f"callee generic function {_nm} has no contract")
@@ -145,6 +153,12 @@ def installed(contracts, keep_real=()):
             if "len" not in vars(mod):
                 saved.append((mod, "len", None, False))
                 setattr(mod, "len", vc_len)
+    from contracts.plain import PLAIN
+    for (mname, attr), fn in PLAIN.items():
+        mod = sys.modules.get(mname)
+        if mod is not None and hasattr(mod, attr):
+            saved.append((mod, attr, getattr(mod, attr), True))
+            setattr(mod, attr, fn)
     old_call = ann.WrapMeta.__call__
     ann.WrapMeta.__call__ = annotation_stub
     try:
